@@ -118,10 +118,10 @@ func RunOne(t *testing.T, cfg RunCfg, out string) {
 				idle = 0
 				last = cur
 			}
-			if idle >= 30 {
+			if idle >= 120 {
 				buf := make([]byte, 1<<20)
 				n := runtime.Stack(buf, true)
-				fmt.Fprintf(os.Stderr, "HARNESS: watchdog: no conductor decision for 15s real time\n%s\n", buf[:n])
+				fmt.Fprintf(os.Stderr, "HARNESS: watchdog: no conductor decision for 60s real time\n%s\n", buf[:n])
 				os.Exit(2)
 			}
 		}
